@@ -1,7 +1,7 @@
 (* Property C04: the verdict of a run, and its diagnosis, are exactly determined by what happened.
    Only property theorems here. Model R, level 0 (hence every level). *)
 From AJ Require Import Common.Util Run.RModel Run.RFacts Run.RFacts2 Run.RInv Run.RMon Run.RProps1 Run.RProps2
-  Props.RExample.
+  Props.RExample Run.RProps3 Run.RWin Run.RProps4 Run.RShut1 Run.RShut2 Run.RTime.
 
 (* Whenever an accepted event announces the end of the run of a scheduler n (owning at least one
    non-forever job) with verdict v, then, in the state just before:
@@ -41,6 +41,13 @@ Theorem C04_flags_clear_while_running : forall lvl c h s n, wf c = true -> Reach
   ph (Rn s n) <> POver -> fto (Rn s n) = false /\ fcr (Rn s n) = false.
 Proof. exact flags_clear. Qed.
 Print Assumptions C04_flags_clear_while_running.
+
+(* in time: every wake of a main loop -- in particular the one that decides success -- happens no
+   later than begin + timeout (level 2) *)
+Theorem C04_in_time : forall lvl c h s n, wf c = true -> 2 <= lvl -> Reach lvl c h s ->
+  ph (Rn s n) = PMain -> dl_ok s (expi (Rn s n)).
+Proof. intros lvl c h s n W Hl Hr. apply (t_run c s (InvT_reach lvl c h s W Hl Hr)). Qed.
+Print Assumptions C04_in_time.
 
 Theorem C04_accepted_histories : forall lvl c h, wf c = true -> accept lvl c h = true ->
   mon_ok chk_end c h = true.
